@@ -772,6 +772,20 @@ impl<'a> RefDoc<'a> {
         if !matches!(self.xref.get(&0), Some(Entry::Free { .. })) {
             issues.push("object 0 is not a free entry".into());
         }
+        // a cross-reference stream is itself an indirect object: it needs an entry (pointing at
+        // itself) and its number counts towards /Size (ISO 32000-1 §7.5.8)
+        for s in &self.sections {
+            if let Some(n) = s.own_num {
+                match s.entries.get(&n) {
+                    Some(Entry::InUse { off, .. }) if *off == s.offset => {}
+                    Some(_) => issues.push(format!("cross-reference stream object {} (offset {}) has an entry that does not point at it", n, s.offset)),
+                    None => issues.push(format!("cross-reference stream object {} has no entry for itself", n)),
+                }
+                if (n as i64) >= s.size {
+                    issues.push(format!("/Size is {} but the cross-reference stream itself is object {}", s.size, n));
+                }
+            }
+        }
         let mut reachable: Vec<Obj> = vec![self.trailer.clone()];
         // every in-use entry points at the exact byte where `N G obj` begins; every object parses
         for (n, e) in &self.xref {
